@@ -1084,3 +1084,90 @@ def rule_every_component_contributes(ctx, kind=None):
                     st.append(sc)
             r.check(not skipped, "%s|component-loop#%d" % (b.id, sorted(heads).index(head)), "component-skipped", "every iteration that continues adds the component's part (%d accumulation site(s))" % len(accs), "an iteration of the loop over the connected components can go on to the next component without adding anything for the current one: the assembled set misses a component", b.blocks[head]["term"].get("line") and "%s:%s" % (b.file, b.blocks[head]["term"].get("line")))
     r.floor(n, 1, "component loops that assemble a set")
+
+
+def rule_status_certificate_pairing(ctx, kind=None):
+    prog = ctx.prog
+    scope = query_scope(prog, kind)
+    r = ctx.rule(
+        "status-pairs-with-certificate",
+        "every function of the solvers that returns (status, Option<certificate>) - the trait methods and the helpers whose status the "
+        "certificate-less variants read with `.0` - pairs them one way only: all its `Some` results carry one status and all its `None` results "
+        "the opposite one (constants, or a bool parameter and its negation); a helper that answers (p, None) on one path and (not p, None) on "
+        "another gives the certificate-less caller a status the certificate variant would contradict",
+    )
+    n = 0
+    for b in sorted(prog.lib_bodies(), key=lambda x: x.id):
+        if b.kind == "closure" or not re.match(r"^\(bool, core::option::Option<alloc::vec::Vec<&", b.ret_ty):
+            continue
+        if not (b.path.startswith("solvers::") or "<solvers::" in b.path.split(" as ")[0] or b.path.startswith("dynamics::") or "<dynamics::" in b.path.split(" as ")[0]):
+            continue
+        if scope is not None and b.id not in scope:
+            continue
+        if _diverges_entirely(b):
+            continue
+        n += 1
+        ss = shp.return_shapes(prog, b)
+        by_cert = {"Some": set(), "None": set()}
+        for s in ss:
+            if isinstance(s, tuple) and s[0] == "t" and len(s[1]) == 2:
+                st, ce = s[1]
+                c = "Some" if isinstance(ce, tuple) and ce[0] == "Some" else ("None" if ce == "None" else None)
+                if c is not None and st != "?":
+                    by_cert[c].add(st)
+        bad = None
+        for c, sts in by_cert.items():
+            if len(sts) > 1:
+                bad = "its `%s` results carry the statuses %s" % (c, sorted(sts, key=str))
+        if bad is None and by_cert["Some"] and by_cert["None"]:
+            a, z = next(iter(by_cert["Some"])), next(iter(by_cert["None"]))
+            if shp.neg(a) != z and not (a in (True, False) and z in (True, False) and a != z):
+                bad = "`Some` comes with %s and `None` with %s, which are not opposite" % (a, z)
+        r.check(bad is None, b.id, "pairing:%s" % {k: sorted(v, key=str) for k, v in by_cert.items()}, "Some <-> %s, None <-> %s" % (sorted(by_cert["Some"], key=str), sorted(by_cert["None"], key=str)), "%s does not pair status and certificate one way: %s" % (b.path.rsplit("::", 1)[-1], bad), b.loc())
+    r.floor(n, 3 if kind is None else 1, "functions returning (status, Option<certificate>)")
+
+
+def rule_in_all_flags_polarity(ctx):
+    prog = ctx.prog
+    from ..prov import prov, subterms
+
+    r = ctx.rule(
+        "in-all-flags-polarity",
+        "ideal semantics: the flag vector `in every preferred extension` is read one way everywhere - an argument is *kept* (returned as a member) "
+        "where its flag is true and *forbidden* (its negated literal assumed) where its flag is false; the flags only ever shrink (a new value is "
+        "the old one AND membership in the extension just found)",
+    )
+    n = 0
+    for b in sorted(prog.lib_bodies(), key=lambda x: x.id):
+        fn = prog.enclosing_fn(b)
+        if not fn.path.startswith("solvers::ideal_semantics_solver::") and "<solvers::ideal_semantics_solver::" not in fn.path:
+            continue
+        for s in b.sites():
+            nd = s.node
+            if s.si is None or nd["k"] != "assign" or nd["rv"]["k"] != "aggregate" or nd["rv"]["agg"].get("variant") != "Some" or nd["rv"]["agg"].get("path") != "core::option::Option":
+                continue
+            # the flag that governs this Some(..): a bool element of an enumerated Vec<bool>
+            truth = None
+            for c in conditions(b, s.bb):
+                if c.is_discr or not (c.is_true() or c.is_false()):
+                    continue
+                for e in prov(prog, b, c.place):
+                    if isinstance(e, tuple) and e[0] == "field" and e[2] == "1" and isinstance(e[1], tuple) and e[1][0] == "elem" and any(isinstance(t, tuple) and t[0] == "call" and t[1].endswith("Iterator::enumerate") for t in subterms(e[1])):
+                        truth = c.is_true()
+            if truth is None:
+                continue
+            acts = set()
+            for e in prov(prog, b, nd["rv"]["ops"][0]):
+                calls = [t[1] for t in subterms(e) if isinstance(t, tuple) and t[0] == "call"]
+                if any(x.endswith("Literal::negate") for x in calls):
+                    acts.add("forbid")
+                elif any(re.search(r"arg_to_lit$", x) for x in calls):
+                    acts.add("require")
+                elif any(re.search(r"get_argument_by_id$|get_argument$", x) for x in calls):
+                    acts.add("member")
+            for a in sorted(acts):
+                n += 1
+                want = a in ("member", "require")
+                r.check(truth == want, "%s|%s" % (b.id, a), "flag-polarity:%s-under-%s" % (a, truth), "an argument is %s where its flag is %s" % ({"member": "kept", "require": "required", "forbid": "forbidden"}[a], str(want).lower()), "an argument is %s where its `in every preferred extension` flag is %s" % ({"member": "kept as a member", "require": "required", "forbid": "forbidden"}[a], str(truth).lower()), s.loc())
+    if n == 0:
+        r.ok("ideal", "NOT decided: no flag-governed selection found in the ideal solver", None)
